@@ -224,8 +224,11 @@ def validate(func, *args, **kwds):
     # strip markup
     named, defaults = strip_markup(named, defaults)
 
+    # keyword-only parameters are settable by keyword (only)
+    kwonly = set(getattr(inspect.getfullargspec(func), 'kwonlyargs', None) or ())
+
     # FAIL if partial built for **kwds, but **kwds not used in func.func
-    p_varkwds = set(p_kwds) - bad_kwds - bad_args
+    p_varkwds = set(p_kwds) - bad_kwds - bad_args - kwonly
     if p_varkwds and not haskwds:
         raise TypeError("%s() got an unexpected keyword argument '%s'" % (func.__name__,p_varkwds.pop()))
 
@@ -241,7 +244,7 @@ def validate(func, *args, **kwds):
         raise TypeError("%s() takes at most %d arguments (%d given)" % (func.__name__, len(named)+len(p_args), len(p_args)+len(args)+len(kwds)))
 
     # check any varkwds; FAIL if func doesn't take varkwds
-    var_kwds = set(kwds) - set(named)
+    var_kwds = set(kwds) - set(named) - kwonly
     if var_kwds and not haskwds:
         raise TypeError("%s() got an unexpected keyword argument '%s'" % (func.__name__,var_kwds.pop()))
 
@@ -262,7 +265,7 @@ def validate(func, *args, **kwds):
         raise TypeError("%s() got multiple values for keyword argument '%s'" % (func.__name__, duplicates.pop()))
 
     # get names of required args
-    required = set(named) - set(defaults)
+    required = (set(named) | kwonly) - set(defaults)
 
     # mixin defaults
     defaults.update(kwds)
